@@ -1907,6 +1907,60 @@ fn poplar1_bits0(cat: &mut Catalogue) {
     }
 }
 
+
+/// Admissible instances whose declared sizes are enormous (a histogram chunk length of 2^27 or 2^61, a sum
+/// vector of 2^40 elements, Prio2 at its maximum length): decoding a SHORT byte string under such a parameter
+/// must return an error promptly — no panic ("capacity overflow") and no allocation proportional to the
+/// declared size before the input has been looked at.
+fn huge_instances(cat: &mut Catalogue) {
+    use prio::vdaf::{AggregateShare, OutputShare};
+    let mut strings: Vec<(String, Vec<u8>)> = bodies().into_iter().map(|b| ("body".to_string(), b)).collect();
+    for l in [64usize, 200, 1000, 4096] {
+        strings.push(("body".to_string(), vec![0u8; l]));
+        strings.push(("body".to_string(), (0..l).map(|i| (i * 37 + 11) as u8).collect()));
+    }
+    let mut es: Vec<Entry> = vec![];
+    for (label, len, chunk) in [("len=4,chunk=2^61", 4usize, 1usize << 61), ("len=4,chunk=2^27", 4, 1 << 27), ("len=2^31,chunk=2^15", 1 << 31, 1 << 15)] {
+        let Ok(vdaf) = Prio3::new_histogram(2, len, chunk) else {
+            cat.notes.push(format!("Prio3::new_histogram(2, {label}) refused"));
+            continue;
+        };
+        let vdaf = Arc::new(vdaf);
+        let inst = format!("huge/Prio3Histogram({label})");
+        let v = vdaf.clone();
+        es.push(mk::<Prio3InputShare<Field128, 32>, _>("param", &format!("{inst}/Prio3InputShare"), "(&vdaf,0)", Shape::NoReference, move |b| Prio3InputShare::<Field128, 32>::get_decoded_with_param(&(&*v, 0usize), b), None));
+        let v = vdaf.clone();
+        es.push(mk::<Prio3InputShare<Field128, 32>, _>("param", &format!("{inst}/Prio3InputShare"), "(&vdaf,1)", Shape::NoReference, move |b| Prio3InputShare::<Field128, 32>::get_decoded_with_param(&(&*v, 1usize), b), None));
+        let v = vdaf.clone();
+        es.push(mk::<Prio3VerifyState<Field128, 32>, _>("param", &format!("{inst}/Prio3VerifyState"), "(&vdaf,0)", Shape::NoReference, move |b| Prio3VerifyState::<Field128, 32>::get_decoded_with_param(&(&*v, 0usize), b), None));
+        let v = vdaf.clone();
+        es.push(mk::<Prio3PublicShare<32>, _>("param", &format!("{inst}/Prio3PublicShare"), "&vdaf", Shape::NoReference, move |b| Prio3PublicShare::<32>::get_decoded_with_param(&*v, b), None));
+        let v = vdaf.clone();
+        es.push(mk::<OutputShare<Field128>, _>("param", &format!("{inst}/OutputShare"), "(&vdaf,&())", Shape::NoReference, move |b| OutputShare::<Field128>::get_decoded_with_param(&(&*v, &()), b), None));
+        let v = vdaf.clone();
+        es.push(mk::<AggregateShare<Field128>, _>("param", &format!("{inst}/AggregateShare"), "(&vdaf,&())", Shape::NoReference, move |b| AggregateShare::<Field128>::get_decoded_with_param(&(&*v, &()), b), None));
+    }
+    if let Ok(vdaf) = Prio3::new_sum_vec(2, 1, 1 << 40, 1 << 20) {
+        let vdaf = Arc::new(vdaf);
+        let v = vdaf.clone();
+        es.push(mk::<Prio3InputShare<Field128, 32>, _>("param", "huge/Prio3SumVec(len=2^40)/Prio3InputShare", "(&vdaf,0)", Shape::NoReference, move |b| Prio3InputShare::<Field128, 32>::get_decoded_with_param(&(&*v, 0usize), b), None));
+        let v = vdaf.clone();
+        es.push(mk::<OutputShare<Field128>, _>("param", "huge/Prio3SumVec(len=2^40)/OutputShare", "(&vdaf,&())", Shape::NoReference, move |b| OutputShare::<Field128>::get_decoded_with_param(&(&*v, &()), b), None));
+    }
+    if let Ok(vdaf) = Prio2::new((1 << 19) - 1) {
+        let vdaf = Arc::new(vdaf);
+        let v = vdaf.clone();
+        es.push(mk::<Share<FieldPrio2, 32>, _>("param", "huge/Prio2(len=2^19-1)/Share", "(&vdaf,0)", Shape::NoReference, move |b| Share::<FieldPrio2, 32>::get_decoded_with_param(&(&*v, 0usize), b), None));
+        let v = vdaf.clone();
+        es.push(mk::<OutputShare<FieldPrio2>, _>("param", "huge/Prio2(len=2^19-1)/OutputShare", "(&vdaf,&())", Shape::NoReference, move |b| OutputShare::<FieldPrio2>::get_decoded_with_param(&(&*v, &()), b), None));
+    }
+    for mut e in es {
+        e.extras = strings.clone();
+        e.short_max = 1;
+        cat.add(e);
+    }
+}
+
 // ------------------------------------------------------------------------------------------------
 // Prio2
 
@@ -2118,6 +2172,7 @@ pub fn build(pf: &Profile) -> Catalogue {
     prio3_all(&mut cat, pf);
     if pf.bits0 {
         poplar1_bits0(&mut cat);
+        huge_instances(&mut cat);
     }
     cat
 }
